@@ -941,6 +941,45 @@ func addHalves(r *ring.Ring, p1, p2 ring.Poly, s0, s1 uint64) {
 	}
 }
 
+// CROSSLAZY control: the lazily inverse-transformed last residue is transformed under the other primes
+func carryLast(r *ring.Ring, p0, buff ring.Poly, level int) {
+	r.SubRings[level].INTTLazy(p0.Coeffs[level], buff.Coeffs[0])
+	for _, s := range r.SubRings[:level] {
+		s.NTTLazy(buff.Coeffs[0], buff.Coeffs[1])
+	}
+}
+
+// DOCFORM control: the offset has lost its sign
+type chebPoly struct {
+	Basis int
+	A, B  big.Float
+}
+
+// changeOfBasis returns the change of basis of the polynomial:
+//   - Chebyshev: scalar=2/(b-a), constant = (-a-b)/(b-a).
+func (p *chebPoly) changeOfBasis() (scalar, constant *big.Float) {
+	const Chebyshev = 1
+	switch p.Basis {
+	case Chebyshev:
+		num := new(big.Float).Sub(&p.B, &p.A)
+		scalar = new(big.Float).Quo(new(big.Float).SetInt64(2), num)
+		constant = new(big.Float).Add(&p.A, &p.B)
+		constant.Quo(constant, num)
+	}
+	return
+}
+
+// DIRMAX control: the hoisting level is the smallest of the list
+type ltLevel struct{ LevelQ int }
+
+func hoistLevel(lts []ltLevel, ctLevel int) int {
+	levelQ := ctLevel
+	for _, lt := range lts {
+		levelQ = utils.Min(levelQ, lt.LevelQ)
+	}
+	return levelQ
+}
+
 // INDEG control: the first two components of the input, whatever its degree
 func (e fixEvaluator) SumTwo(ctIn, opOut *rlwe.Ciphertext) {
 	e.r.Add(ctIn.Value[0], ctIn.Value[1], opOut.Value[0])
